@@ -1,6 +1,6 @@
 (* C06 round 2b: lost elements under van_vleck='autocorr' and under the weight power scaling. *)
 From Coq Require Import ZArith QArith Qcanon List Bool Lia.
-From KV Require Import Base.Sx Gen.Generated Model.Interp Model.Weights Model.LostOpt Proofs.WeightsP Proofs.C15TopP.
+From KV Require Import Base.Sx Gen.Generated Model.Interp Model.Weights Model.LostOpt Proofs.WeightsP.
 Import ListNotations.
 Close Scope Q_scope.
 Open Scope Z_scope.
@@ -69,7 +69,7 @@ Proof.
   - apply opt_weight_lost.
   - destruct divided; cbn [andb].
     + destruct (l1 || l2) eqn:E.
-      * unfold opt_weight. apply top_bad_weight_when_zero_or_nonfinite.
+      * unfold opt_weight, power_scale. rewrite guard_on. apply bad_weight_div_guarded.
         destruct l1; [left; left; reflexivity|]. destruct l2; [right; left; reflexivity|discriminate].
       * apply orb_false_iff in E. destruct E as [-> ->]. reflexivity.
     + reflexivity.
